@@ -23,6 +23,11 @@ def Re.lits : Str → Re
   | [c] => .chr c
   | c :: cs => .seq (.chr c) (Re.lits cs)
 
+theorem Re.lits_eq_litsRe (t : Str) : Re.lits t = litsRe t := by
+  induction t with
+  | nil => rfl
+  | cons c cs ih => cases cs <;> simp_all [Re.lits, litsRe]
+
 /-- the characters the generated table escapes (entries for the semantic characters are skipped) -/
 def escapedChars : List Char :=
   (Gen.rePatternEscapes.filter (fun ce => !(ce.1.all (fun c => "[]\\".toList.contains c) && !ce.1.isEmpty))).filterMap
@@ -37,7 +42,7 @@ theorem C07_table_shape :
         (ce.1.all (fun c => "[]\\".toList.contains c) && !ce.1.isEmpty) ||
         (match ce.1 with | [c] => ce.2 == ['\\', c] && c != '\\' | _ => false))) = true
     ∧ escapedChars.Nodup := by
-  sorry
+  decide
 
 /-- COMPLETENESS of the table: every regex metacharacter of Python's `re` is either one of the
     documented semantic characters (`[ ] \ ^ $`) or escaped by the table.  (This is the
@@ -45,13 +50,15 @@ theorem C07_table_shape :
     repair.) -/
 theorem C07_table_complete :
     ∀ c ∈ ".^$*+?{}[]\\|()".toList, c ∈ "[]\\^$".toList ∨ escapedChars.contains c = true := by
-  sorry
+  decide
 
 /-- the sequential `str.replace` loop is a pointwise map: each character is escaped on its own,
     independently of its neighbours and of the order of the table — for EVERY string -/
 theorem C07_escape_pointwise (s : Str) :
     escapePattern Gen.rePatternEscapes s = s.flatMap escChar := by
-  sorry
+  have hbs : '\\' ∉ escapedChars := by decide
+  exact (escapePattern_eq_fold Gen.rePatternEscapes C07_table_shape.1 s).trans
+    (escFold_pointwise escapedChars hbs C07_table_shape.2 s)
 
 /-- literal pattern text: any characters except upper-case letters, `^`, `$`, bare brackets and
     bare backslashes; `\[` / `\]` stand for brackets.  Returns the text it denotes. -/
@@ -63,45 +70,122 @@ def litDecode : Str → Option Str
     if isUpper c || c == '\\' || c == '[' || c == ']' || c == '^' || c == '$' then none
     else (litDecode r).map (c :: ·)
 
+theorem escapedChars_eq : escapedChars = escList := by decide
+
+theorem escChar_eq (c : Char) : escChar c = if escList.contains c then ['\\', c] else [c] := by
+  simp only [escChar, escapedChars_eq]
+
+/-- the escaped form of literal pattern text is the escaped form of the text it denotes -/
+theorem litDecode_enc (p t : Str) (h : litDecode p = some t) :
+    p.flatMap escChar = enc t ∧ t.all litChar = true := by
+  fun_induction litDecode p generalizing t with
+  | case1 => cases h; exact ⟨rfl, rfl⟩
+  | case2 r ih =>
+    cases hr : litDecode r with
+    | none => simp [hr] at h
+    | some t' =>
+      simp only [hr, Option.map_some, Option.some.injEq] at h
+      subst h
+      obtain ⟨e, ha⟩ := ih t' hr
+      have e1 : escChar '\\' = ['\\'] := by decide
+      have e2 : escChar '[' = ['['] := by decide
+      have e3 : encChar '[' = ['\\', '['] := by decide
+      have e4 : litChar '[' = true := by decide
+      refine ⟨?_, by simp only [List.all_cons, e4, ha, Bool.and_self]⟩
+      simp only [List.flatMap_cons, enc_cons, e, e1, e2, e3, List.cons_append, List.nil_append]
+  | case3 r ih =>
+    cases hr : litDecode r with
+    | none => simp [hr] at h
+    | some t' =>
+      simp only [hr, Option.map_some, Option.some.injEq] at h
+      subst h
+      obtain ⟨e, ha⟩ := ih t' hr
+      have e1 : escChar '\\' = ['\\'] := by decide
+      have e2 : escChar ']' = [']'] := by decide
+      have e3 : encChar ']' = ['\\', ']'] := by decide
+      have e4 : litChar ']' = true := by decide
+      refine ⟨?_, by simp only [List.all_cons, e4, ha, Bool.and_self]⟩
+      simp only [List.flatMap_cons, enc_cons, e, e1, e2, e3, List.cons_append, List.nil_append]
+  | case4 => cases h
+  | case5 c r _ _ hc ih =>
+    cases hr : litDecode r with
+    | none => simp [hr] at h
+    | some t' =>
+      simp only [hr, Option.map_some, Option.some.injEq] at h
+      subst h
+      obtain ⟨e, ha⟩ := ih t' hr
+      simp only [Bool.or_eq_true, beq_iff_eq, not_or] at hc
+      obtain ⟨⟨⟨⟨⟨h1, h2⟩, h3⟩, h4⟩, h5⟩, h6⟩ := hc
+      have hl : litChar c = true := by simp [litChar, h1, h2, h5, h6]
+      have he : escChar c = encChar c := by simp [escChar_eq, encChar, h3, h4]
+      refine ⟨?_, by simp only [List.all_cons, hl, ha, Bool.and_self]⟩
+      simp only [List.flatMap_cons, enc_cons, e, he]
+
 /-- LITERAL TEXT COMPILES TO ITSELF: whatever metacharacters it contains, the regex bumpver
     builds for a literal pattern is exactly the literal-sequence regex of the denoted text -/
 theorem C07_literal_compiles (p t : Str) (h : litDecode p = some t) :
     compileRe p = some (Re.lits t) := by
-  sorry
+  obtain ⟨he, ha⟩ := litDecode_enc p t h
+  rw [compileRe, compileStr, compileStrWith, C07_escape_pointwise, he, replaceParts_enc t ha,
+    parseRe_enc t ha, Re.lits_eq_litsRe]
 
 /-- the literal sequence followed by `r` (right-nested, as `parseRe` builds it) -/
 def Re.litsThen : Str → Re → Re
   | [], r => r
   | c :: cs, r => .seq (.chr c) (Re.litsThen cs r)
 
+theorem Re.litsThen_eq (t : Str) (r : Re) : Re.litsThen t r = litsThenRe t r := by
+  induction t with
+  | nil => rfl
+  | cons c cs ih => simp [Re.litsThen, litsThenRe, ih]
+
 /-- … and a leading `^` / trailing `$` are the anchors around it -/
 theorem C07_anchored (p t : Str) (h : litDecode p = some t) :
     compileRe ('^' :: p ++ ['$']) = some (.seq .bol (Re.litsThen t .eol)) := by
-  sorry
+  obtain ⟨he, ha⟩ := litDecode_enc p t h
+  have e1 : escChar '^' = ['^'] := by decide
+  have e2 : escChar '$' = ['$'] := by decide
+  have hs : ('^' :: p ++ ['$']).flatMap escChar = '^' :: (enc t ++ ['$']) := by
+    simp only [List.cons_append, List.flatMap_cons, List.flatMap_append, List.flatMap_nil, he, e1, e2,
+      List.nil_append, List.append_nil]
+  rw [compileRe, compileStr, compileStrWith, C07_escape_pointwise, hs, replaceParts_enc_anchored t ha,
+    parseRe_enc_anchored t ha, Re.litsThen_eq]
 
 /-- the literal-sequence regex finds exactly the lines containing the text: a match is an
     occurrence of `t` … -/
 theorem C07_lits_match_is_occurrence (t line : Str) (m : Match)
     (h : reSearch (Re.lits t) line = some m) :
     m.stop = m.start + t.length ∧ (line.drop m.start).take t.length = t := by
-  sorry
+  rw [reSearch, Re.lits_eq_litsRe, searchGo_litsRe] at h
+  cases hf : findIdx t line with
+  | none => simp [hf] at h
+  | some i =>
+    simp only [hf, Option.map_some, Option.some.injEq] at h
+    subst h
+    obtain ⟨r, hr⟩ := List.isPrefixOf_iff_prefix.mp (findIdx_some_prefix hf)
+    simp [← hr]
 
 /-- … every line containing `t` is found … -/
 theorem C07_lits_finds (t line : Str) (h : isInfix t line = true) :
     (reSearch (Re.lits t) line).isSome = true := by
-  sorry
+  rw [reSearch, Re.lits_eq_litsRe, searchGo_litsRe]
+  simpa [isInfix] using h
 
 /-- … and no other line is -/
 theorem C07_lits_only (t line : Str) (h : isInfix t line = false) :
     reSearch (Re.lits t) line = none := by
-  sorry
+  rw [reSearch, Re.lits_eq_litsRe, searchGo_litsRe]
+  simpa [isInfix] using h
 
 /-- the defect that was repaired (DESIGN.md D6): without the `|` entry, `a|b` was an alternation -/
 theorem C07_pipe_witness :
     parseRe (compileStrWith (Gen.rePatternEscapes.filter (fun ce => ce.1 != ['|'])) Gen.partPatterns Gen.partFields "a|b".toList)
       = some (.alt (.chr 'a') (.chr 'b')) ∧
     compileRe "a|b".toList = some (Re.lits "a|b".toList) := by
-  sorry
+  have w1 : compileStrWith (Gen.rePatternEscapes.filter (fun ce => ce.1 != ['|'])) Gen.partPatterns
+      Gen.partFields "a|b".toList = "a|b".toList := by decide +kernel
+  have w2 : parseRe "a|b".toList = some (.alt (.chr 'a') (.chr 'b')) := rfl
+  exact ⟨by rw [w1, w2], C07_literal_compiles _ _ (by decide)⟩
 
 /-! non-vacuity -/
 example : litDecode "version = \"(c)*+?{}|.\\[x\\]\"".toList = some "version = \"(c)*+?{}|.[x]\"".toList := by decide
